@@ -54,9 +54,15 @@ def deep_input(name, n):
 
 
 _driver = {}
+_driver_lock = __import__('threading').Lock()
 
 
 def build_driver(repo=REPO):
+    with _driver_lock:
+        return _build_driver(repo)
+
+
+def _build_driver(repo=REPO):
     if repo in _driver:
         return _driver[repo]
     d = os.path.join(scratch(), 'wit%d' % len(_driver))
